@@ -64,6 +64,7 @@ type streamCfg struct {
 	drw   *dialect.ReadWriter
 	dl    []int // def indices (1-based) of the dialect, for the spec
 	key   *frame.V2Key
+	bufSize int // size of the caller's bufio.Reader (0 = 512, what the library's own constructors use)
 }
 
 // runStream drives a real frame.Reader over the stream until it reports a transport error.
@@ -77,7 +78,11 @@ func runStream(data []byte, errat int, errkind string, sched []int, withData boo
 		terr = errSentinel
 	}
 	src := &chunkReader{data: data, limit: limit, sched: sched, err: terr, withData: withData}
-	br := bufio.NewReaderSize(src, 512)
+	bs := cfg.bufSize
+	if bs == 0 {
+		bs = 512
+	}
+	br := bufio.NewReaderSize(src, bs)
 	r := &frame.Reader{BufByteReader: br, DialectRW: cfg.drw, InKey: cfg.key}
 	if err := r.Initialize(); err != nil {
 		fatal("reader init: %v", err)
@@ -139,12 +144,20 @@ type streamEmitter struct {
 	rec        *Rec
 	g          int
 	incomplete bool // do not ask the monitor for the completeness clause (tampered signed streams)
+	n          int
 }
+
+// the caller of frame.Reader brings its own bufio.Reader: its size is one more dimension (bufio's minimum is 16)
+var bufSizes = []int{512, 16, 4096, 64, 512, 300, 32, 128}
 
 func (e *streamEmitter) group() int { e.g++; return e.g }
 
 func (e *streamEmitter) put(g int, data []byte, errat int, errkind string, sched []int, withData bool, cfg streamCfg,
 	clean bool, tag string) {
+	if cfg.bufSize == 0 {
+		cfg.bufSize = bufSizes[e.n%len(bufSizes)]
+	}
+	e.n++
 	res := runStream(data, errat, errkind, sched, withData, cfg)
 	key := B{}
 	if cfg.key != nil {
@@ -158,7 +171,7 @@ func (e *streamEmitter) put(g int, data []byte, errat int, errkind string, sched
 		sched = []int{}
 	}
 	e.rec.Put(M{"e": "STREAM", "g": g, "in": B(data), "errat": errat, "errkind": errkind, "sched": sched,
-		"with_data": withData, "dl": dl, "key": key, "results": res, "clean": clean, "tag": tag, "complete": !e.incomplete})
+		"with_data": withData, "dl": dl, "key": key, "results": res, "clean": clean, "tag": tag, "complete": !e.incomplete, "buf": cfg.bufSize})
 }
 
 // chunkings returns the chunk schedules to try for a stream of n bytes with region boundaries cuts.
